@@ -90,6 +90,11 @@ F3c == { Cat(<<BRef(1), Grp(A)>>), Cat(<<Grp(Cat(<<A, BRef(2)>>)), Grp(B)>>),
          Star(Grp(Alt(<<Cat(<<A, Grp(B)>>), Grp(A)>>))),
          Cat(<<Star(Ncg(Alt(<<Grp(A), B>>))), BRef(1)>>),
          Plus(Grp(Cat(<<Opt(Grp(A)), B>>))),
+         \* a group under a mandatory loop under an optional one under a loop: the outer loop must reset it
+         \* when the optional part is skipped
+         Plus(Ncg(Cat(<<Opt(Ncg(Plus(Grp(A)))), B>>))), Star(Ncg(Cat(<<Star(Ncg(Rep(Grp(A), 1, 2, TRUE))), B>>))),
+         Rep(Ncg(Cat(<<Opt(Ncg(Cat(<<Chr(cc), Plus(Grp(A))>>))), B>>)), 2, 2, TRUE),
+         Cat(<<Look(Plus(Ncg(Cat(<<Opt(Ncg(Cat(<<Plus(Grp(A)), Chr(cc)>>))), B>>))), TRUE, FALSE), Chr(cc)>>),
          Cat(<<Alt(<<Grp(Dot), Rep(BRef(1), 1, 3, TRUE)>>), Cls(TRUE, <<IC(cs)>>)>>),
          Cat(<<Grp(Cat(<<Rep(A, 1, 2, FALSE), Opt(BRef(1))>>)), Chr(cc)>>) }
 F3 == With(F3a \cup F3b \cup F3c, NoFlags) \cup With(F3c, Flags(TRUE, FALSE, FALSE, FALSE, FALSE))
@@ -118,7 +123,12 @@ F4Hay == [alpha |-> {ca, cb}, maxlen |-> IF Thorough THEN 5 ELSE 4]
 F4bBodies == { Cat(<<Grp(A), Look(Grp(B), FALSE, FALSE)>>), Cat(<<Grp(Dot), Look(Grp(Dot), FALSE, FALSE)>>),
                Cat(<<Look(Grp(A), TRUE, FALSE), Grp(B)>>), Cat(<<Grp(A), Look(Cat(<<Grp(B), Look(Grp(Dot), FALSE, FALSE)>>), FALSE, FALSE)>>),
                Cat(<<Grp(A), Look(B, FALSE, FALSE)>>), Grp(Cat(<<A, Look(Grp(B), FALSE, TRUE)>>)),
-               Cat(<<Look(Grp(Dot), TRUE, FALSE), Look(Grp(Dot), FALSE, FALSE), Grp(Dot)>>) }
+               Cat(<<Look(Grp(Dot), TRUE, FALSE), Look(Grp(Dot), FALSE, FALSE), Grp(Dot)>>),
+               \* a nested assertion with a group next to a sibling group (inside a look-behind the two are emitted
+               \* right to left, so the nested assertion's group range is not "the groups emitted so far")
+               Cat(<<Look(Cat(<<Grp(B), A>>), FALSE, TRUE), Grp(B)>>),
+               Alt(<<Cat(<<Look(Cat(<<Grp(B), A>>), FALSE, TRUE), Grp(B)>>), B>>),
+               Alt(<<Cat(<<Look(Grp(A), TRUE, TRUE), Grp(B)>>), A>>) }
 F4bPats == { Alt(<<Cat(<<pre, Look(bd, k[1], k[2]), post>>), alt2>>) :
                pre \in {Empty, Dot}, bd \in F4bBodies, k \in F4Kinds, post \in {Chr(cx), A, Dot},
                alt2 \in {Cat(<<A, B>>), Rep(Dot, 2, 2, TRUE), Dot} }
@@ -138,7 +148,8 @@ F5Flags == { NoFlags, Flags(FALSE, TRUE, FALSE, FALSE, FALSE), Flags(FALSE, FALS
 F5Pats == {Cat(<<x, y>>) : x \in F5Atoms, y \in F5Atoms}
             \cup {Cat(<<x, y, z>>) : x \in {Bol, Wb(FALSE), Star(Dot), A}, y \in F5Atoms, z \in {Eol, Wb(TRUE), A, Dot}}
 F5 == UNION {With(F5Pats, fl) : fl \in F5Flags}
-F5Hay == [alpha |-> {ca, cNL, cSP} \cup (IF Thorough THEN {cLS, cCR} ELSE {}), maxlen |-> IF Thorough THEN 4 ELSE 3]
+\* (U+000B is not a line terminator although it sits between U+000A and U+000D)
+F5Hay == [alpha |-> {ca, cNL, cSP, 11} \cup (IF Thorough THEN {cLS, cCR, 12} ELSE {}), maxlen |-> IF Thorough THEN 4 ELSE 3]
 
 (***************************************************************************)
 (* F6: case-insensitivity over the fold classes of the alphabet            *)
@@ -394,6 +405,8 @@ F14Shapes(at, q) ==
   { Quant(at, q), Cat(<<Quant(at, q), Dot>>), Cat(<<Bol, Quant(at, q), Grp(Dot), Eol>>),
     Cat(<<Look(Cat(<<at, Grp(Quant(Dot, q))>>), TRUE, FALSE), A>>), Cat(<<Look(Cat(<<Grp(Quant(Dot, q)), at>>), TRUE, TRUE), Eol>>),
     Cat(<<Grp(Quant(at, q)), BRef(1)>>), Cat(<<Look(Cat(<<BRef(1), Grp(at)>>), TRUE, FALSE), Eol>>),
+    \* a loop that must give characters back to the right of where a backward backreference landed
+    Cat(<<Look(Cat(<<A, Quant(Dot, q), BRef(1), Grp(at)>>), TRUE, FALSE), Eol>>),
     Cat(<<Quant(at, q), Wb(FALSE)>>), Cat(<<Wb(TRUE), Quant(at, q), A>>) }
 F14Pats == UNION {F14Shapes(at, q) : at \in F14Atoms, q \in F14Q}
 F14 == UNION {With(F14Pats, fl) : fl \in {NoFlags, UFlags, Flags(TRUE, FALSE, FALSE, TRUE, FALSE)}}
@@ -402,6 +415,20 @@ F14LPats == { Cat(<<Grp(Dot), BRef(1)>>), Cat(<<Look(Cat(<<BRef(1), Grp(Dot)>>),
               Cls(FALSE, <<IC(cDeseretL)>>), Cls(TRUE, <<IC(cDeseretU)>>), Cat(<<Grp(Plus(Dot)), BRef(1)>>), Plus(Chr(cDeseretL)),
               Cls(FALSE, <<IR(cDeseretU, cDeseretU)>>) }
 F14L == With(F14LPats, Flags(TRUE, FALSE, FALSE, FALSE, FALSE))
+
+(***************************************************************************)
+(* F8p: literal prefixes that overlap themselves ("abab", bytes C3 A9 C3   *)
+(* A9) followed by something that is not a literal, on every haystack long *)
+(* enough to hold a failing occurrence overlapped by a succeeding one: a   *)
+(* prefix search that resumes after a failed occurrence must resume inside *)
+(* it.                                                                     *)
+(***************************************************************************)
+F8pCase(pat, alpha, n) == [ast |-> pat, fl |-> NoFlags, hays |-> StringsUpTo(alpha, n)]
+F8p == { F8pCase(Cat(<<A, B, A, B, Cls(FALSE, <<IC(cc)>>)>>), {ca, cb, cc}, IF Thorough THEN 8 ELSE 7),
+         F8pCase(Cat(<<A, B, A, B, Esc("d")>>), {ca, cb, c1}, 7),
+         F8pCase(Alt(<<Cat(<<A, B, A, B, Chr(cc), Dot>>), Cat(<<A, B, A, B, Chr(cb), Dot>>)>>), {ca, cb, cc}, 7),
+         F8pCase(Cat(<<Chr(cEacute), Chr(cEacute), Cls(FALSE, <<IC(cc)>>)>>), {cEacute, cc}, 6),
+         F8pCase(Cat(<<A, A, B, A, A, Cls(FALSE, <<IC(cc)>>)>>), {ca, cb, cc}, IF Thorough THEN 9 ELSE 7) }
 
 (***************************************************************************)
 (* F20: patterns for the Searcher contract: empty matches at every         *)
@@ -439,6 +466,7 @@ FamilyCases(name) ==
     [] name = "F20" -> AttachHays(F20, F20Hay)
     [] name = "F4b" -> AttachHays(F4b, F4bHay)
     [] name = "F8m" -> AttachHays(F8m, F8mHay)
+    [] name = "F8p" -> F8p
     [] name = "F11" -> AttachHays(F11, F11Hay)
     [] name = "F14" -> AttachHays(F14, F14Hay)
     [] name = "F14L" -> AttachHays(F14L, F14Hay)
